@@ -166,6 +166,7 @@ type e8interp struct {
 	opaque  map[*types.Func]bool // repository functions that must not be entered
 	frozen  map[types.Object]bool // variables whose assignments are ignored (they stay inputs)
 	opaquePkg map[*types.Package]bool // packages whose functions must not be entered
+	rangeOnce bool                // range loops run zero times or once (for rows that do not depend on them)
 	havoc   bool                  // variables written by a function literal handed to an opaque call become fresh atoms after the call
 }
 
@@ -790,6 +791,9 @@ func (in *e8interp) call(fr *e8frame, x *ast.CallExpr) *val {
 			}
 			return &val{k: kNil}
 		}
+		if len(res.vals) == 0 {
+			return &val{k: kNil} // a bare return in a function without results
+		}
 		if len(res.vals) == 1 {
 			return res.vals[0]
 		}
@@ -1316,6 +1320,33 @@ func (in *e8interp) exec(fr *e8frame, st ast.Stmt) *e8return {
 		case token.CONTINUE:
 			return continueSignal
 		}
+	}
+	if rs, ok := st.(*ast.RangeStmt); ok && in.rangeOnce {
+		// abstraction for rows that do not depend on the loop: the body runs zero times or once
+		name := "nonempty(" + in.valName(in.evalQuiet(fr, rs.X), rs.X) + ")"
+		in.trace = append(in.trace, e8call{name: "range(" + types.ExprString(rs.X) + ")", fn: "range"})
+		enter := false
+		if in.collect != nil {
+			in.collect.bools[name] = true
+			enter = true
+		} else {
+			enter = in.a.B(name)
+		}
+		if !enter {
+			return nil
+		}
+		info := fr.pkg.TypesInfo
+		for i, e := range []ast.Expr{rs.Key, rs.Value} {
+			if id, ok := e.(*ast.Ident); ok && id.Name != "_" {
+				if o := info.ObjectOf(id); o != nil {
+					fr.vars[o] = in.newInput(fmt.Sprintf("%s[%s]", types.ExprString(rs.X), []string{"k", "i"}[i]), o.Type())
+				}
+			}
+		}
+		if r := in.loopBody(fr, rs.Body); r != nil && r != breakSignal && r != continueSignal {
+			return r
+		}
+		return nil
 	}
 	e8fail("unsupported statement %T", st)
 	return nil
